@@ -347,6 +347,48 @@ func c17xDedup(l []string) []string {
 // classify returns the Lean terms for one printed value (one or, when a composite is looked through or
 // several assignments can reach the call, several)
 func (f *c17xFunc) classify(e ast.Expr, verb string, pos token.Pos, depth int) []string {
+	out := f.classify0(e, verb, pos, depth)
+	// an expression the reviewed table would be asked about: when the data flow says it is derived from a
+	// client address it is reported as such (`.err (.tainted …)`, never accepted), whatever the table says.
+	// Identifiers are judged by the assignments that reach the call (that is how the placeholder of the flow
+	// description differs from the address assigned under `if logClientIP`).
+	if f.me == nil || verb == "T" {
+		return out
+	}
+	for i, o := range out {
+		if !strings.HasPrefix(o, ".expr ") {
+			continue
+		}
+		w := ""
+		if id, ok := e.(*ast.Ident); ok {
+			if !strings.HasPrefix(o, ".expr \""+id.Name+"=") {
+				continue // a part of a looked-through composite: it was judged when it was classified
+			}
+			for _, a := range f.reaching(id.Name, pos) {
+				switch {
+				case a.rng != nil:
+					w = f.me.valueTaint(a.rng, 0)
+				case a.rhs != nil:
+					w = f.me.valueTaint(a.rhs, 0)
+				}
+				if w != "" {
+					break
+				}
+			}
+			if len(f.reaching(id.Name, pos)) == 0 {
+				w = f.me.taintP[id.Name]
+			}
+		} else if len(out) == 1 {
+			w = f.me.valueTaint(e, 0)
+		}
+		if w != "" {
+			out[i] = ".err (.tainted " + c17xLeanStr(c17xClipText(c17xText(f.fset, e))+" ⇐ "+w) + ")"
+		}
+	}
+	return out
+}
+
+func (f *c17xFunc) classify0(e ast.Expr, verb string, pos token.Pos, depth int) []string {
 	q := func(s string) string { return c17xLeanStr(s) }
 	if verb == "T" {
 		return []string{".typeOf " + q(c17xText(f.fset, e))}
@@ -731,19 +773,80 @@ func c17xExtract(root string) (sites []c17xSite, assigns []string, skipped []str
 					return true
 				})
 			}
+			// the conditions under which a call is reached (the if statements around it, inside the function): a
+			// reviewed exemption names the guard it was reviewed under, so that a widened guard ends the exemption
+			var stack []ast.Node
+			guardOf := func() string {
+				var gs []string
+				for i := 0; i+1 < len(stack); i++ {
+					is, ok := stack[i].(*ast.IfStmt)
+					if !ok {
+						continue
+					}
+					switch stack[i+1] {
+					case ast.Node(is.Body):
+						gs = append(gs, c17xText(fset, is.Cond))
+					case is.Else:
+						gs = append(gs, "!("+c17xText(fset, is.Cond)+")")
+					}
+				}
+				return strings.Join(gs, " && ")
+			}
 			emit := func(call *ast.CallExpr, level, format string, la []string) {
 				line := fset.Position(call.Pos()).Line
 				sites = append(sites, c17xSite{rel, fd.Name.Name, line, fmt.Sprintf(
-					"  { file := %s, fn := %s, line := %d, level := .%s, format := %s,\n    args := [%s] }",
-					c17xLeanStr(rel), c17xLeanStr(fd.Name.Name), line, level, c17xLeanStr(format), strings.Join(la, ", "))})
+					"  { file := %s, fn := %s, line := %d, level := .%s, format := %s, guard := %s,\n    args := [%s] }",
+					c17xLeanStr(rel), c17xLeanStr(fd.Name.Name), line, level, c17xLeanStr(format), c17xLeanStr(guardOf()), strings.Join(la, ", "))})
 			}
 			ast.Inspect(fd.Body, func(n ast.Node) bool {
+				if n == nil {
+					stack = stack[:len(stack)-1]
+					return true
+				}
+				stack = append(stack, n)
 				call, ok := n.(*ast.CallExpr)
 				if !ok {
 					return true
 				}
+				// the builtins print / println write to standard error
+				if id, ok := call.Fun.(*ast.Ident); ok && (id.Name == "println" || id.Name == "print") && !f.params[id.Name] {
+					var la []string
+					for _, a := range call.Args {
+						la = append(la, f.classify(a, "", call.Pos(), 0)...)
+					}
+					emit(call, "print", "<builtin "+id.Name+">", la)
+					return true
+				}
 				sel, ok := call.Fun.(*ast.SelectorExpr)
 				if !ok {
+					return true
+				}
+				// the process's standard streams written directly: fmt.Fprint*(os.Stdout / os.Stderr, …),
+				// os.Stderr.WriteString(…), os.Stdout.Write(…)
+				if fn := c17xText(fset, call.Fun); strings.HasPrefix(fn, "fmt.Fprint") && len(call.Args) > 0 {
+					if w := c17xText(fset, call.Args[0]); w == "os.Stdout" || w == "os.Stderr" {
+						args, format := call.Args[1:], ""
+						var verbs, la []string
+						if strings.HasSuffix(fn, "f") && len(args) > 0 {
+							format, verbs = f.formatOf(args[0], call.Pos())
+							if strings.HasPrefix(format, "?") {
+								la = append(la, f.classify(args[0], "", call.Pos(), 0)...)
+							}
+							args = args[1:]
+						}
+						for i, a := range args {
+							verb := ""
+							if i < len(verbs) {
+								verb = verbs[i]
+							}
+							la = append(la, f.classify(a, verb, call.Pos(), 0)...)
+						}
+						emit(call, "print", format, la)
+						return true
+					}
+				}
+				if x := c17xText(fset, sel.X); (x == "os.Stdout" || x == "os.Stderr") && strings.HasPrefix(sel.Sel.Name, "Write") && len(call.Args) == 1 {
+					emit(call, "print", "<"+x+"."+sel.Sel.Name+">", f.classify(call.Args[0], "", call.Pos(), 0))
 					return true
 				}
 				// logger prefixes are printed in front of every line
@@ -793,7 +896,7 @@ func c17xExtract(root string) (sites []c17xSite, assigns []string, skipped []str
 					line := fset.Position(pos).Line
 					la := f.classify(rhs, "", pos, 0)
 					sites = append(sites, c17xSite{rel, fd.Name.Name, line, fmt.Sprintf(
-						"  { file := %s, fn := %s, line := %d, level := .print, format := %s,\n    args := [%s] }",
+						"  { file := %s, fn := %s, line := %d, level := .print, format := %s, guard := \"\",\n    args := [%s] }",
 						c17xLeanStr(rel), c17xLeanStr(fd.Name.Name), line, c17xLeanStr("<field "+typ+"."+field+">"), strings.Join(la, ", "))})
 				}
 				ast.Inspect(fd.Body, func(n ast.Node) bool {
